@@ -4,6 +4,6 @@ CONSTANTS
   MaxFlush = 2
   MaxRot = 2
   Dedup = TRUE
-  Recheck = TRUE
+  Recheck = FALSE
 INVARIANTS NoDup NoLoss NoInvent NeverInNeither TypeOK
 CHECK_DEADLOCK FALSE
